@@ -260,3 +260,10 @@ mod tests {
         m.range(r).map(|(pn, v)| (pn, v.size)).collect()
     }
 }
+
+#[cfg(feature = "__verif-hooks")]
+#[allow(missing_docs, unreachable_pub, dead_code, unused_imports, unused_qualifications)]
+pub mod verif {
+    use super::*;
+    include!(concat!(env!("QUINN_VERIF_HOOKS"), "/proto/connection/sent_packets.rs"));
+}
